@@ -27,3 +27,17 @@ Definition check_M (c : list (op Z) * list (out Z)) : bool := outs_eqb (model_ru
 (* layer S on histories without explicit iterator handles *)
 Definition check_S (c : list (op Z) * list (out Z)) : bool :=
   if forallb seq_op (fst c) then outs_eqb (srun [] (fst c)) (snd c) else true.
+
+(* the evaluators decide cases with Grow arguments no allocation can satisfy, without building anything *)
+Example ex_huge_grow_checks :
+  let c := ([OpPushBack 1; OpPushFront 2; OpGrow 9223372036854775807; OpGrow 9223372036854775791;
+             OpGrow 4611686018427387903; OpItem 0; OpGrow (-3); OpGrow 5; OpIterate],
+            [OUnit; OUnit; OPanic; OPanic; OPanic; OVal 2; OUnit; OUnit; OList [2; 1]]) in
+  check_M c && check_S c = true.
+Proof. vm_compute. reflexivity. Qed.
+
+(* ... and reject an implementation that returns normally from such a Grow *)
+Example ex_huge_grow_rejects :
+  let c := ([OpPushBack 1; OpGrow 9223372036854775807; OpItem 0], [OUnit; OUnit; OVal 1]) in
+  check_M c || check_S c = false.
+Proof. vm_compute. reflexivity. Qed.
